@@ -70,35 +70,16 @@ Print Assumptions C02_rt_is_modular_shifts_partial.
 
 (* rt_bin / rt_bin_k is the value of an operator result once STORED (or passed); rt_nested_l is its
    value when consumed directly by another operator; k1 says whether the inner right operand is a
-   compile-time constant (the emitter then takes its shift fast paths).  The full statement
-   (ProofsNested.rt_context_independent: every non-comparison inner operator, every outer operator,
-   all types, ALL values, both kinds of count) is FALSE today: `l << k` with a constant count on an
-   unsigned operand narrower than int is emitted as the bare C shift, computed in int, so
-   (uint8(200) << 1) > 255 is true nested and false once stored.  The statement depends on the cast
-   conditions scraped from the emitter on this run (Gen.binop_casts_subint,
-   Gen.tdiv_mixed_casts_back, Gen.shl_fast_casts_unsigned_subint). *)
-Definition C02_rt_context_independent : Prop := rt_context_independent.
-
-Theorem C02_rt_context_independent_refuted : ~ C02_rt_context_independent.
-Proof. exact (rt_context_independent_refuted eq_refl). Qed.
-Print Assumptions C02_rt_context_independent_refuted.
-
-(* ... true for everything else: run-time counts, signed or int-or-wider left operands, every other
-   operator (the casts of 1d3f0fa / 8eb30df enter through ProofsNested.binop_casts_fact /
-   tdiv_casts_fact: reverting either commit breaks this proof) *)
-Theorem C02_rt_context_independent_partial : forall o1 o2 t1 t2 t3 a b c k1,
-  wf_ity t1 -> wf_ity t2 -> is_cmpop o1 = false -> in_range t1 a ->
-  ~ (k1 = true /\ o1 = Bshl /\ sgn t1 = false /\ bits t1 < 32) ->
-  rt_nested_l o1 o2 t1 t2 t3 a b c k1 = rt_stored_l o1 o2 t1 t2 t3 a b c k1.
-Proof. exact rt_context_independent_partial. Qed.
-Print Assumptions C02_rt_context_independent_partial.
-
-(* ... and the full statement follows as soon as the fast path casts its result
-   (harness/C02/proposed_repairs/11-shl-constant-count-reduced.diff) *)
-Theorem C02_rt_context_independent_if_cast :
-  shl_fast_casts_unsigned_subint = true -> C02_rt_context_independent.
-Proof. exact rt_context_independent_if_cast. Qed.
-Print Assumptions C02_rt_context_independent_if_cast.
+   compile-time constant (the emitter then takes its shift fast paths).  Since 1d3f0fa / 8eb30df /
+   3d9c769 every result narrower than C int is cast to its type and the two coincide: every
+   non-comparison inner operator, every outer operator, all types, ALL values, run-time and
+   compile-time counts (ProofsNested.rt_context_independent, full strength).  The proof goes through
+   the cast conditions scraped from the emitter on this run (Gen.binop_casts_subint,
+   Gen.tdiv_mixed_casts_back, Gen.shl_fast_casts_unsigned_subint): reverting any of the three
+   commits breaks it. *)
+Theorem C02_rt_context_independent : rt_context_independent.
+Proof. exact rt_context_independent_holds. Qed.
+Print Assumptions C02_rt_context_independent.
 
 (* a compile-time count takes the emitter's fast path (rt_bin_k); it computes what the helper computes:
    checked exhaustively for int8 and uint8 (all values, counts -2 .. 9, << >> >>>); wider types: probes *)
